@@ -6,9 +6,13 @@
 (* Constant-free: used by WarmUp (model checking) and WarmUp_Trace         *)
 (* (validation of executions of the real code).                            *)
 (*                                                                         *)
-(* A configuration is cfg = [tn, td, p, c]: threshold T = tn/td (td > 0),  *)
-(* warm-up period p seconds, cold factor c as written in the rule (values  *)
-(* <= 1 mean the default 3).  Rationals are [n, d] pairs, compared by      *)
+(* A configuration is cfg = [tn, td, p, c, cb]: threshold T = tn/td        *)
+(* (td > 0), warm-up period p seconds, cold factor c as written in the     *)
+(* rule (values <= 1 mean the default 3), control behaviour cb (0 = Reject:*)
+(* the effective threshold caps the tokens of the statistic window; 1 =    *)
+(* Throttling: it spaces the admissions by 1/threshold).  The calculator   *)
+(* is the same for both: the envelope is about the effective THRESHOLD,    *)
+(* whatever enforces it.  Rationals are [n, d] pairs, compared by          *)
 (* cross-multiplication; \div appears exactly where Go truncates a float   *)
 (* to an integer.  d = 0 stands for "not a number" (the float code divides *)
 (* by zero and multiplies 0 by +Inf there).                                *)
@@ -60,6 +64,18 @@ Defined(a) == a.d # 0
 Blocks(a, cur, b) == (cur + b) * a.d > a.n
 OnEdge(a, cur, b) == (cur + b) * a.d = a.n          \* float rounding may decide either way exactly here
 
+\* ---- control behaviour ----
+Throttled(cfg) == cfg.cb = 1
+FloorR(a) == a.n \div a.d
+CeilR(a)  == (a.n + a.d - 1) \div a.d
+\* throttling checker, single-token requests under SATURATING demand during one aligned second: a token alone above the
+\* threshold is rejected; otherwise the admissions are spaced by 1/a, so the second holds floor(a) or ceil(a) of them
+\* depending on the phase carried over from the previous second.  A relation, not a function: the machine takes both.
+\* (Saturating = at every instant an admission is due a request is there to take it: requests that may queue for at least
+\* the time to the next request - see Dense in WarmUp_Trace.  A demand that polls without queueing can miss an admission;
+\* with floor(a) - 1 in this set TLC shows the warm-up can then stall: T 5, period 2, cold 2 stays at 30/11.)
+Paced(a) == IF a.n < a.d THEN {0} ELSE {FloorR(a), CeilR(a)}
+
 ---------------------------------------------------------------------------
 (* The ENVELOPE of the property (what any conforming implementation must   *)
 (* respect), as predicates over observable quantities.                     *)
@@ -67,6 +83,17 @@ OnEdge(a, cur, b) == (cur + b) * a.d = a.n          \* float rounding may decide
 CeilTOverCold(cfg) == (cfg.tn + cfg.td * Cold(cfg) - 1) \div (cfg.td * Cold(cfg))
 ColdCap(cfg)  == CeilTOverCold(cfg) + 1          \* "no higher than about threshold/coldFactor"
 FloorT(cfg)   == cfg.tn \div cfg.td
+CeilT(cfg)    == (cfg.tn + cfg.td - 1) \div cfg.td
+\* "the admitted rate never exceeds the threshold", for k tokens admitted in one aligned second: the reject checker counts
+\* them in the window (k <= T); the throttling checker spaces them by at least 1/T, so a second holds at most ceil(T)
+RateOK(cfg, k) == IF Throttled(cfg) THEN k <= CeilT(cfg) ELSE k * cfg.td <= cfg.tn
+\* throttling: a single-token request at time t (microseconds) is OWED an admission no later than 1/T after the previous
+\* admission (at time la), i.e. once the full threshold is in force a request may be refused, or made to wait until ta,
+\* only inside that spacing.  R = rounding slack of the recorded times (microseconds).
+PaceSlack == 2
+GapCap    == 5000000                       \* (32-bit integers: gaps are capped before they are multiplied; 1/T <= 4 s)
+Within(cfg, gap) == (Min2(gap, GapCap) - PaceSlack) * cfg.tn < 1000000 * cfg.td      \* gap < 1/T (+ slack)
+NotAfter(cfg, gap) == (Min2(gap, GapCap) - PaceSlack) * cfg.tn <= 1000000 * cfg.td   \* gap <= 1/T (+ slack)
 IdleEnough(cfg) == 2 * cfg.p + 2                 \* idle seconds after which the resource counts as cold again
 WarmEnough(cfg) == 2 * cfg.p + 2                 \* saturated seconds after which the full threshold must be reached (see notes: integer tokens)
 StarveBound(cfg) == 2 * cfg.p + 5                \* consecutive seconds of unserved single-token demand that count as "forever"
